@@ -28,4 +28,29 @@ def IsPow2 (x : Int) : Prop := ∃ k : Nat, x = 2 ^ k
 
 def clampSpec (v lo hi : Int) : Option Int := if lo ≤ hi then some (max lo (min hi v)) else none
 
+/-- C++20 [conv.integral]: `r` is the unique value of the destination type congruent to `x` modulo `2^bits`
+(the meaning of `static_cast<Dest>`, `cast::size`, `cast::to_signed`, `cast::to_unsigned`). -/
+def IsConv (d : IntTy) (x r : Int) : Prop := d.InRange r ∧ (r - x) % d.modulus = 0
+
+/-- What `math::interval_distance((a1,b1),(a2,b2))` computes, over unbounded integers.  The interval with the larger
+upper end is the "upper" one (on equal upper ends: the SECOND argument).  If the lower interval does not start after
+the upper one, the result is `upper.first - lower.second` (the gap; minus the overlap if negative); otherwise the
+upper interval strictly contains the start of the lower one and the result is minus the shorter of the two parts
+the inner interval leaves over. -/
+def intervalDistSpec (a1 b1 a2 b2 : Int) : Int :=
+  if b1 ≤ b2 then (if a1 ≤ a2 then a2 - b1 else max (b1 - b2) (a2 - a1))
+  else (if a2 ≤ a1 then a1 - b2 else max (b2 - b1) (a1 - a2))
+
+/-- the same for the unsigned types that are not promoted (`uint32_t`, `uint64_t`): every difference wraps before the
+maximum of the two parts is taken, so the maximum is that of the wrapped numbers -/
+def intervalDistSpecW (t : IntTy) (a1 b1 a2 b2 : Int) : Int :=
+  if b1 ≤ b2 then (if a1 ≤ a2 then t.wrap (a2 - b1) else max (t.wrap (b1 - b2)) (t.wrap (a2 - a1)))
+  else (if a2 ≤ a1 then t.wrap (a1 - b2) else max (t.wrap (b2 - b1)) (t.wrap (a1 - a2)))
+
+/-- every difference `interval_distance` evaluates on these operands is representable in `t` (for `int` and wider
+signed types anything else is undefined behaviour; `std::max(x, y)` evaluates both of its arguments) -/
+def intervalDistGuard (t : IntTy) (a1 b1 a2 b2 : Int) : Prop :=
+  if b1 ≤ b2 then (if a1 ≤ a2 then t.InRange (a2 - b1) else t.InRange (b1 - b2) ∧ t.InRange (a2 - a1))
+  else (if a2 ≤ a1 then t.InRange (a1 - b2) else t.InRange (b2 - b1) ∧ t.InRange (a1 - a2))
+
 end Fcppt.C06
